@@ -68,3 +68,20 @@ func init() {
 		QuickBudgetS: 300, ThoroughBudgetS: 2700,
 	}
 }
+
+func init() {
+	propMeta["C04"] = Meta{
+		Level: "fault_enumeration",
+		Rule: "The fault space is the finite set of cells (protocol scenario, corrupt party position, message type, recipient for unicasts, leaf of the CBOR encoding at normalised path (first and last instance of repeated positions), operator in {bit flip low/high, replace by the value at the same position of another sender's / the parallel session's message, swap two leaves, increment, truncate, extend, drop, replay of another sender's / the parallel session's / another recipient's whole message}). Cells are derived from the recorded messages of an honest inventory run with the same seed; each evaluation re-runs the scenario (real runners, real echo broadcast, a parallel untouched session) with exactly one cell applied on the corrupt party's outgoing link, a broadcast being altered identically in all copies. The quick tier visits an evenly spread subset per scenario, the thorough tier every cell. Non-trivial = the tamper changed the bytes on the wire. Distinct = distinct cell labels.",
+		Assumptions: []string{
+			"binding table: every leaf is treated as bound unless listed as free with a written justification (session round-1 commitment key); operators that only append surplus data are accepted when every party ends with exactly the outputs of the unaltered run (decoding strictness is C12's subject)",
+			"the corrupt party runs honest code; its deviation is applied on the wire, so the deviating party's own later state is consistent with the untampered message",
+			"one fault per run; n=3 (two-party quorums for DKLs23)",
+		},
+		Real: []string{"pkg/mpc/session, dkg/gennaro, dkg/canetti, signatures/schnorr/lindell22, signatures/ecdsa/dkls23 (bbot, softspoken) incl. pkg/ot and pkg/mpc/rvole, aggregators", "pkg/network router, echo broadcast, exchange", "pkg/base/serde decoders, message Validate methods, proofs, commitments"},
+		Stub: append(append([]string{}, commonStub...), "wire adversary (checks/adversary.go) on one party's outgoing link", "trusted dealer for signing key material"),
+		ExpectedProbes: []string{"detected", "blamed_correctly", "op_flip", "op_set", "op_replaymsg", "op_drop", "op_trunc", "op_extend", "class_bound", "class_free"},
+		CrashIsViolation: true,
+		QuickBudgetS:     400, ThoroughBudgetS: 7200,
+	}
+}
